@@ -144,15 +144,19 @@ CHECKS["C03"] = dict(
 
 CHECKS["C17"] = dict(
     technique="bounded history queries by SAT over the symbolically executed generated module (incl. recompute_model_indices, with the real toposort.rs interpreted): closedness under the inheritance axioms after symbolic API histories, and self-composition of histories for order independence",
-    text="For the model-declaration programs of the corpus (one model type; a member predicate over a global type; a member predicate over a member type "
-         "pushed forward through the morphism application graph) the solver shows, for all public histories within the stated plans over a universe of 2 "
+    text="Inductive piece (arbitrary state, universes 2 and 3): one call of the generated recompute_model_indices (with the real toposort.rs interpreted) makes, "
+         "for every member relation, new-all u old-all exactly the inheritance closure (transitive, through the application graphs) of the own copies, "
+         "and own shrinks only by inherited tuples -- hence the inheritance axiom and `nothing else is inherited` hold at every condition evaluation "
+         "and return. Bounded history queries: for the model-declaration programs of the corpus (a member predicate over a global type; one over a member type "
+         "pushed forward through the application graph; dom / cod derived by rules) the solver shows, for all public histories within the stated plans over a universe of 2 "
          "elements per type: after close() every reference rule holds, including the inheritance axiom `dom(m)=a, cod(m)=b, R(a,xs) => R(b,m(xs))` of each "
          "member relation and the program's rules read over inherited tuples; the same after `calls; close_until stopped at a symbolic point; more calls; "
          "close()`; and (thorough tier) two histories asserting the same symbolic facts in different orders with intermediate closes end in the same model. "
          "Cyclic morphism graphs are outside the quantifier. Counterexamples are scripts replayed natively. Known finding F5 (inherited tuples born old) is "
-         "reported for exactly the histories in which a morphism's dom/cod is asserted after a close; the queries are repeated with those histories excluded.",
+         "keyed by role (every unsatisfied rule instance relies on an inherited tuple: the model is closed once premises are read from the own copies); each query "
+         "that hits it is repeated with exactly those instances left out.",
     design_ref="§4 C17, §9",
-    note="This check is a bounded history search, not an inductive proof: no invariant for the own/all index copies has been formulated, so histories longer "
+    note="Apart from the recompute lemma this check is a bounded history search, not an inductive proof: no invariant relating ages of own / all copies to the rules has been formulated (F5 shows the obvious one is false), so histories longer "
          "than the plans (quick: 3 calls + close, 3 calls + early stop + 2 calls + close; <= 3 iterations per close) are outside the claim. Reference rules of "
          "these programs are hand-written (corpus/models/META.json). Trusted as for C01.")
 
